@@ -69,7 +69,7 @@ type fileCtx struct {
 	entryExported bool
 	seq           int
 	usedXMaps     map[string]string // local import name -> a symbol to keep it referenced
-	keepAlive map[string]bool // plain "pkg.Symbol" references that keep imports used
+	keepAlive     map[string]bool   // plain "pkg.Symbol" references that keep imports used
 }
 
 func (fc *fileCtx) off(p token.Pos) int { return fc.tokFile.Offset(p) }
@@ -521,6 +521,11 @@ func (fc *fileCtx) syncIntercept(call *ast.CallExpr) string {
 		if f.Name() == "Do" {
 			return "sync.Once.Do"
 		}
+	case "sync.Cond":
+		switch f.Name() {
+		case "Wait", "Signal", "Broadcast":
+			return "sync.Cond." + f.Name()
+		}
 	}
 	return ""
 }
@@ -582,6 +587,15 @@ func (fc *fileCtx) passYCall(call *ast.CallExpr, depth int, fn string) {
 		fc.replace(sel.X.End(), call.Lparen+1, "), ")
 		fc.insert(call.Rparen, ", "+q(site), 90-depth)
 		record("once", site, fn)
+	case strings.HasPrefix(kind, "sync.Cond."):
+		// c.Wait() -> simrt.CondWait(c, site) etc.: the simulator keeps the waiters
+		amp := "&"
+		if isPointer(fc.pkg.TypesInfo.TypeOf(sel.X)) {
+			amp = ""
+		}
+		fc.insert(sel.X.Pos(), simName+".Cond"+strings.TrimPrefix(kind, "sync.Cond.")+"("+amp+"(", 10+depth)
+		fc.replace(sel.X.End(), call.Rparen+1, "), "+q(site)+")")
+		record("cond", site, fn)
 	}
 }
 
